@@ -81,7 +81,10 @@ pub fn assemble_with(world: &mut World<'_>, consistent: bool, ts_version: u64, s
     let mut m = pinned(world, &top_file, top.version, pin);
     let l = world.file_bytes(&top_file).len() as u64;
     tweak("targets", l, &mut m);
-    meta_list.push((AMetaKey::Targets, m));
+    // convention: a tweak that sets version 0 drops the entry from the snapshot
+    if m.version != 0 {
+        meta_list.push((AMetaKey::Targets, m));
+    }
     server.push((AName::Targets(if consistent { Some(top.version) } else { None }), AResp::File(top_file)));
     for (r, doc) in roles {
         let f = AFile::plain(AContent::Targets(doc.clone()));
